@@ -867,7 +867,42 @@ impl Transaction {
         self.propagate_governance().await?;
         self.check_reference_closure().await?;
         self.check_concept_key_identity().await?;
-        self.check_proposition_tuple_identity().await
+        self.check_proposition_tuple_identity().await?;
+        self.check_rows_are_writable().await
+    }
+
+    /// Applies the row store's content rules to every staged row before the
+    /// first one is written (see [`Store::check_row`]).
+    ///
+    /// The rows are checked as staged; the writer still stamps the envelope
+    /// (sequence, timestamps, transaction id), which adds a bounded handful of
+    /// bytes and no structure.
+    async fn check_rows_are_writable(&self) -> Result<(), KipError> {
+        for (id, staged) in &self.staged {
+            if !staged.changed {
+                continue;
+            }
+            let version = if staged.is_new {
+                1
+            } else {
+                staged.row.version().saturating_add(1)
+            };
+            macro_rules! check {
+                ($row:expr) => {
+                    self.store
+                        .check_row(&self.cx, *id, version, staged.op, &**$row)
+                        .await?
+                };
+            }
+            match &staged.row {
+                Element::Concept(row) => check!(row),
+                Element::Proposition(row) => check!(row),
+                Element::Assertion(row) => check!(row),
+                Element::Evidence(row) => check!(row),
+                Element::Activity(row) => check!(row),
+            }
+        }
+        Ok(())
     }
 
     /// Abandons everything staged, removing the shells this run minted.
